@@ -4,7 +4,7 @@ NS = 10 ** 9
 FRAC_MAX = 100_000_000          # cumulative fractional part kept below this (impl_c26.rs: REAL_TIME_MARGIN = 1 s - this - slack)
 BIG_SECS = [2 ** 30, 2 ** 31 - 1, 2 ** 31, 2 ** 31 + 1, 2 ** 32 - 1, 2 ** 32, 2 ** 32 + 1, 10 ** 9,
             1431655766, 1431655765, 2 ** 33, 3 * 2 ** 32 + 5, 2 ** 40, 31_536_000, 10 * 31_536_000]
-KINDS = ["na", "nb", "nc", "nA", "da", "wq", "wzz", "yq", "zq", "cq", "xq", "xab", "rq", "f", "va", "vb"]
+KINDS = ["na", "nb", "nc", "nA", "da", "wq", "wzz", "yq", "zq", "cq", "xq", "xab", "rq", "f", "va", "vb", "u"]
 
 
 def gen_params(rng):
@@ -94,7 +94,7 @@ def gen(rng, tier):
         yield f"{ne} {nx} {er} {win} {slip} {size} {kind} {rng.choice([0, 1])} {','.join(map(str, gaps))}"
 
 
-MIX_KINDS = ["na", "nA", "nb", "da", "wq", "wzz", "xq", "xab", "rq", "f", "va"]
+MIX_KINDS = ["na", "nA", "nb", "da", "wq", "wzz", "xq", "xab", "rq", "f", "va", "u"]
 EXEMPT = ["oa", "m"]
 
 
